@@ -725,18 +725,18 @@ pub fn execute(scn: &Scn, property: &str) -> RunOutcome {
         prev = now;
     }
 
-    if property == "C05" && out.violation.is_none() && scn.repartition_seed % 4 == 0 {
+    if (property == "C05" || property == "C07") && out.violation.is_none() && scn.repartition_seed % 4 == 0 {
         // the state-type dimension: same timelines, same trace, a payload-carrying state type
         out.count("probe.state_type_twin_run");
         out.evaluations += scn.ops.len() as u64;
         match catch(|| crate::shapes::state_type_probe(spec, &scn.ops)) {
             Ok(None) => {}
             Ok(Some(d)) => {
-                out.violation = Some(viol("C05", "state-type-dependence", scn.ops.len(), d, "state-type".into()));
+                out.violation = Some(viol(property, "state-type-dependence", scn.ops.len(), d, "state-type".into()));
             }
             Err(p) => {
                 out.violation = Some(viol(
-                    "C05",
+                    property,
                     &format!("panic@{}:{}", p.file, p.line),
                     scn.ops.len(),
                     format!("state-type twin panicked: {}", p.describe()),
